@@ -14,9 +14,13 @@ Two kinds of cases, both compared with the Lean model `Driver/C32.lean` (Model/T
   after the last thread check — an observer rendering a value with a blocking `__repr__`, an
   after-test-case observer — outlasts the time bound, so that the abandoned thread still completes
   and puts its result, in the grace period or in the middle of a later execution) is executed by the
-  REAL `TestCaseExecutor` with small real timeouts in a child interpreter.  A recording subclass of
-  `ExecutionTracer` and a logging wrapper of the result queue log the history that actually happened
-  (every outermost tracer call and every `put`, under a lock; one `collect` per `execute`); that
+  REAL `TestCaseExecutor` with small real timeouts in a child interpreter.  Test cases may also never
+  terminate INSIDE a tracer call (the tracer evaluates the comparison of a branch condition itself:
+  `x in <endless generator>`, an `__eq__`/`__bool__` parked in uninstrumented code).  A recording
+  subclass of `ExecutionTracer` and a logging wrapper of the result queue log the history that
+  actually happened (every outermost plain tracer call and every `put` under a lock; of a callback the
+  guard — the wrapper's `check()` — under the lock and the completion separately, the body never under
+  the lock; one `collect` per `execute`); that
   recorded history is run through the Lean model (tracer + per-execution result queues), and the
   model's `execute` results (timeout / producing execution / trace / exceptions) are compared with
   what the executor returned.
@@ -24,7 +28,9 @@ Two kinds of cases, both compared with the Lean model `Driver/C32.lean` (Model/T
 Property oracle (independent of the Lean model, in the property's words):
 sched: a call by thread t never changes another thread's flag or trace, and everything in a thread's
 final trace was issued by that thread (or comes from an import trace).  hist: every non-terminating
-test case is reported as a timeout and `execute` returns (hang cap, see below); every later result
+test case is reported as a timeout and `execute` returns (hang cap, see below); once `execute` gave up
+on an execution (`stop()`), no callback of that execution's thread passes the thread guard any more
+(the abandoned execution is dead for whatever is executed afterwards); every later result
 that is not a timeout contains no line, branch, predicate, code object or exception that the same
 test case executed on its own does not produce.
 
@@ -51,6 +57,7 @@ from vcommon import Failure, PropertyCheck, run_main
 
 HANG_CAP = float(os.environ.get("C32_HANG_CAP", "60"))
 CB_CAP = 300          # successful callbacks logged per thread in a recorded history
+UNDEAD_CAP = 45.0     # extra seconds an abandoned thread gets to die after the end of a history
 
 
 # =================================================================================================
@@ -329,6 +336,13 @@ def tick():
     time.sleep(0.005)
 
 
+def alive():
+    """Polled by busy loops that cannot be killed by the tracer (they run INSIDE a tracer call)."""
+    if STOP_SPIN:
+        raise SystemExit
+    return True
+
+
 def release_all():
     global OPEN
     OPEN = True
@@ -435,19 +449,72 @@ def late(k, a):
 def late_post(k, a):
     _s.arm(k)
     return work(a)
+
+
+# ---- test cases that never terminate INSIDE a tracer call: the tracer evaluates the comparison of a
+# ---- branch condition itself (branch distance), with tracing disabled - check() cannot kill them
+def numbers(busy):
+    """An endless one-shot iterator."""
+    n = 0
+    while _s.alive():
+        if not busy:
+            _s.tick()
+        yield n
+        n += 1
+
+
+def stuck_in(a):
+    r = work(a)
+    if -1 in numbers(a % 2 == 0):
+        r += 1000
+    return r
+
+
+class Gate:
+    """Comparing it / asking for its truth value waits in an uninstrumented helper."""
+
+    def __init__(self, k):
+        self.k = k
+
+    def __eq__(self, other):
+        _s.park(self.k)
+        return True
+
+    def __hash__(self):
+        return 1
+
+    def __bool__(self):
+        _s.park(self.k)
+        return True
+
+
+def stuck_eq(k, a):
+    r = work(a)
+    if Gate(k) == 1:
+        r += work(a + 2)
+    return r
+
+
+def stuck_bool(k, a):
+    r = work(a)
+    if Gate(k):
+        r += work(a + 2)
+    return r
 '''
 
 
 def _make_recorder():
-    from pynguin.instrumentation import PynguinCompare as PC
     from pynguin.instrumentation.tracer import ExecutionTracer
-    import operator
-    cmp = {PC.EQ: operator.eq, PC.NE: operator.ne, PC.LT: operator.lt, PC.LE: operator.le,
-           PC.GT: operator.gt, PC.GE: operator.ge, PC.IN: lambda a, b: a in b,
-           PC.NOT_IN: lambda a, b: a not in b, PC.IS: operator.is_, PC.IS_NOT: operator.is_not}
 
     class Recorder(ExecutionTracer):
-        """Logs every outermost tracer call (thread, op, raised) in the order the calls take effect."""
+        """Logs every outermost tracer call `[thread, op, raised, state]` in the order the calls take
+        effect.  Plain calls (enter/exit/stop/check/…) are executed and logged under one lock.  A
+        CALLBACK is not: its body evaluates the comparison of the module under test (it may take for
+        ever), so only its guard — the `check()` the `_early_return` wrapper makes — is executed under
+        the lock; there the callback gets its place in the log (state "open"), and when the call
+        returns the entry is completed (state "done", predicate outcome filled in) and an "end" entry
+        is logged.  States: plain | skipped (returned before the guard: tracing disabled) | raised |
+        open (passed the guard, has not returned) | done | end."""
 
         def __init__(self):
             self._rec_ready = False
@@ -455,9 +522,11 @@ def _make_recorder():
             self._rec_lock = threading.RLock()
             self._rec_depth = threading.local()
             self._rec_threads: dict = {}     # thread object -> global tid
-            self.log: list = []              # (gtid, op, raised)
+            self.log: list = []              # [gtid, op, raised, state]
             self.cb_count: dict = {}
             self.truncated: set = set()
+            self.epoch = 0                   # number of enter/exit/stop calls so far
+            self.last_epoch: dict = {}
             self.recording = True
             self.on_stop = None              # called after an outermost stop() (gate module)
             self._rec_ready = True
@@ -469,12 +538,18 @@ def _make_recorder():
                     self._rec_threads[th] = len(self._rec_threads)
                 return self._rec_threads[th]
 
+        def snapshot(self):
+            with self._rec_lock:
+                return [list(e) for e in self.log]
+
         def _wrap(self, op, fn, *a, **kw):
             if not self._rec_ready:
                 return fn(*a, **kw)
             d = getattr(self._rec_depth, "d", 0)
             if d > 0 or not self.recording:
                 return fn(*a, **kw)
+            if not isinstance(op, str):
+                return self._wrap_cb(op, fn, *a, **kw)
             from pynguin.utils.exceptions import TracingAbortedException
             with self._rec_lock:
                 t = self.tid()
@@ -487,16 +562,73 @@ def _make_recorder():
                     raise
                 finally:
                     self._rec_depth.d = 0
-                    is_cb = not isinstance(op, str)
-                    if is_cb and not raised:
-                        c = self.cb_count.get(t, 0) + 1
-                        self.cb_count[t] = c
-                        if c > CB_CAP:
-                            self.truncated.add(t)
-                        else:
-                            self.log.append((t, op, raised))
-                    else:
-                        self.log.append((t, op, raised))
+                    if op in ("enter", "exit", "stop"):
+                        self.epoch += 1
+                    self.log.append([t, op, raised, "plain"])
+
+        def _log_cb(self, entry):
+            """Under the lock.  The first CB_CAP callbacks of a thread that pass the guard or are skipped
+            are logged; afterwards only the first one after every enter/exit/stop of any thread (so a
+            thread that goes on being accepted after it was abandoned is seen however long it loops)."""
+            t = entry[0]
+            c = self.cb_count.get(t, 0) + 1
+            self.cb_count[t] = c
+            if c > CB_CAP:
+                self.truncated.add(t)
+                if self.last_epoch.get(t) == self.epoch:
+                    return False
+            self.last_epoch[t] = self.epoch
+            self.log.append(entry)
+            return True
+
+        def _wrap_cb(self, op, fn, *a, **kw):
+            loc = self._rec_depth
+            loc.d = 1
+            loc.pending = list(op)
+            loc.slot = None
+            loc.outcome = None
+            completed = False
+            try:
+                r = fn(*a, **kw)
+                completed = True
+                return r
+            finally:
+                loc.d = 0
+                loc.pending = None
+                slot, loc.slot = loc.slot, None
+                with self._rec_lock:
+                    if slot is None:
+                        if completed:   # `if self.is_disabled(): return`
+                            self._log_cb([self.tid(), list(op), False, "skipped"])
+                    elif slot[3] == "open" and completed:
+                        if slot[1][0] == "pred":
+                            slot[1][2] = bool(loc.outcome)
+                        slot[3] = "done"
+                        if slot[4]:
+                            self.log.append([slot[0], ["end"], False, "end"])
+                    elif slot[3] == "open":
+                        slot[3] = "died"    # the body raised (SystemExit at the end of a history)
+
+        def _guard(self):
+            """The `check()` of the `_early_return` wrapper of an outermost callback."""
+            from pynguin.utils.exceptions import TracingAbortedException
+            loc = self._rec_depth
+            op, loc.pending = loc.pending, None
+            with self._rec_lock:
+                t = self.tid()
+                try:
+                    ExecutionTracer.check(self)
+                except TracingAbortedException:
+                    loc.slot = [t, op, True, "raised", True]
+                    self.log.append(loc.slot)
+                    raise
+                entry = [t, op, False, "open", False]
+                entry[4] = self._log_cb(entry)
+                loc.slot = entry
+
+        def _update_metrics(self, distance_false, distance_true, predicate):
+            self._rec_depth.outcome = distance_true == 0.0
+            return super()._update_metrics(distance_false, distance_true, predicate)
 
         def __enter__(self):
             return self._wrap("enter", super().__enter__)
@@ -516,10 +648,15 @@ def _make_recorder():
             with self._rec_lock:
                 q.put(item, *a, **kw)
                 if self.recording:
-                    self.log.append((self.tid(), ["put", exc_ids(
-                        sorted([i, type(e).__name__] for i, e in item.exceptions.items()))], False))
+                    self.log.append([self.tid(), ["put", exc_ids(
+                        sorted([i, type(e).__name__] for i, e in item.exceptions.items()))], False,
+                        "plain"])
 
         def check(self):
+            loc = self._rec_depth
+            if (self._rec_ready and getattr(loc, "d", 0) == 1
+                    and getattr(loc, "pending", None) is not None):
+                return self._guard()
             return self._wrap("check", super().check)
 
         def init_trace(self):
@@ -543,18 +680,19 @@ def _make_recorder():
         def track_line_visit(self, l):
             return self._wrap(["line", l], super().track_line_visit, l)
 
+        # the outcome of a predicate is taken from what the tracer itself hands to `_update_metrics`:
+        # the recorder must not evaluate the comparison (it may never return)
         def executed_bool_predicate(self, value, predicate):
-            return self._wrap(["pred", predicate, bool(value)], super().executed_bool_predicate,
+            return self._wrap(["pred", predicate, None], super().executed_bool_predicate,
                               value, predicate)
 
         def executed_compare_predicate(self, value1, value2, predicate, cmp_op):
-            return self._wrap(["pred", predicate, bool(cmp[cmp_op](value1, value2))],
-                              super().executed_compare_predicate, value1, value2, predicate, cmp_op)
+            return self._wrap(["pred", predicate, None], super().executed_compare_predicate,
+                              value1, value2, predicate, cmp_op)
 
         def executed_exception_match(self, err, exc, predicate):
-            e = type(err) if isinstance(err, BaseException) else err
-            return self._wrap(["pred", predicate, bool(issubclass(e, exc))],
-                              super().executed_exception_match, err, exc, predicate)
+            return self._wrap(["pred", predicate, None], super().executed_exception_match,
+                              err, exc, predicate)
 
         def executed_in_presence_predicate(self, *a, **kw):  # the SUT has no subscripts
             raise AssertionError("unexpected executed_in_presence_predicate")
@@ -693,6 +831,7 @@ def _worker_history(envs: dict, base: str, case: dict) -> dict:
     rec.log.clear()
     rec.cb_count.clear()
     rec.truncated.clear()
+    rec.last_epoch.clear()
     thread_of_test: dict = {}
 
     class Exec(TestCaseExecutor):
@@ -731,7 +870,9 @@ def _worker_history(envs: dict, base: str, case: dict) -> dict:
     h.start()
     h.join(bound + HANG_CAP)
     if not progress["done"]:
-        out["hang"] = {"test": progress["i"], "waited": round(bound + HANG_CAP, 1)}
+        out["hang"] = {"test": progress["i"], "waited": round(bound + HANG_CAP, 1),
+                       "threads_inside_a_tracer_call": [e[1] for e in list(rec.log)
+                                                        if len(e) > 3 and e[3] == "open"][:5]}
         out["results"] = results
         sync.STOP_SPIN = True
         sync.release_all()
@@ -750,42 +891,87 @@ def _worker_history(envs: dict, base: str, case: dict) -> dict:
     rec.recording = False
     out["undead"] = undead
     # ---- renumber threads: the history's main thread is 0, test threads by first appearance --------
-    log = list(rec.log)
+    log = rec.snapshot()
     ren = {progress["main_tid"]: 0}
-    for g, _, _ in log:
-        if g not in ren:
-            ren[g] = len(ren)
-    pre = [(0, o, r) for _, o, r in env.import_log]
-    out["pre"] = len(pre)
+    for e in log:
+        if e[0] not in ren:
+            ren[e[0]] = len(ren)
+    pre = [(0, e[1], e[2], e[3]) for e in env.import_log]
+    out["pre"] = len([e for e in pre if e[3] in COARSE])
     # ---- the history as the model sees it: tracer calls, puts of the test threads, and one collect
     #      per execute() (placed where execute() returned; alive = the main thread called stop()) ------
-    exec_of_thread, collect_at, stopped = {}, {}, []
+    exec_of_thread, collect_at, stopped, stop_at = {}, {}, [], []
     for i, (lo, hi, key) in enumerate(windows):
         g = thread_of_test.get(key)
         if g is not None:
             exec_of_thread[g] = i
         collect_at.setdefault(hi, []).append(i)
-        stopped.append(any(o == "stop" and ren[gg] == 0 for gg, o, _ in log[lo:hi]))
-    hist = [["call", 0, o] for _, o, _ in pre]
-    raised = [r for _, _, r in pre]
+        sj = [j for j in range(lo, hi) if log[j][1] == "stop" and ren[log[j][0]] == 0]
+        stopped.append(bool(sj))
+        stop_at.append(sj[0] if sj else None)
+    # a callback sits where its guard was passed; one that never returned (stuck inside the tracer call
+    # until the end of the history) has no effect at all and is left out of the coarse history
+    hist, raised, fine, fine_raised = [], [], [], []
+    open_cb: dict = {}
+
+    def emit(t, o, r, st):
+        if st in COARSE:
+            hist.append(["call", t, o])
+            raised.append(r)
+        if st in ("done", "open", "died"):
+            open_cb[t] = o
+        for f in _fine_events(t, o, st, open_cb.get(t)):
+            fine.append(f)
+            fine_raised.append(r)
+
+    for t, o, r, st in pre:
+        emit(t, o, r, st)
+    open_cb.clear()
     late_puts = 0
-    for j, (g, o, r) in enumerate(log):
+    for j, e in enumerate(log):
+        g, o, r, st = e[0], e[1], e[2], e[3]
         for i in collect_at.get(j, ()):
             hist.append(["collect", i, stopped[i]])
         if isinstance(o, list) and o[0] == "put":
             i = exec_of_thread[g]
             hist.append(["put", i, ren[g], o[1]])
             late_puts += 1 if stopped[i] else 0
-        else:
-            hist.append(["call", ren[g], o])
-            raised.append(r)
+            continue
+        emit(ren[g], o, r, st)
     for i in collect_at.get(len(log), ()):
         hist.append(["collect", i, stopped[i]])
     out["hist"] = hist
     out["raised"] = raised
+    out["fine"] = fine
+    out["fine_raised"] = fine_raised
     out["late_puts"] = late_puts
     out["n"] = len(ren)
     out["truncated"] = sorted(ren[g] for g in rec.truncated if g in ren)
+    out["stuck"] = sorted({ren[e[0]] for e in log if e[3] in ("open", "died")})
+    # ---- the abandoned execution must be dead for whatever is executed afterwards: once execute() gave
+    #      up on execution i (the watchdog's stop()), no callback of its thread passes the guard any more
+    zombies = []
+    for i, (lo, hi, key) in enumerate(windows):
+        g = thread_of_test.get(key)
+        if g is None or stop_at[i] is None:
+            continue
+        acc = [j for j in range(stop_at[i] + 1, len(log))
+               if log[j][0] == g and log[j][3] in ("open", "done", "died")]
+        if acc:
+            zombies.append({"test": i, "thread": ren[g], "accepted_after_stop": len(acc),
+                            "first": log[acc[0]][1], "events_after_stop": acc[0] - stop_at[i],
+                            "during_later_test": max([k for k, (l2, h2, _) in enumerate(windows)
+                                                      if l2 <= acc[-1]], default=i)})
+    out["zombies"] = zombies
+    # a thread that is still running long after everything was released and nothing in the log explains
+    # it: give it a wide margin (load), then report it
+    still = [th for th, g in list(rec._rec_threads.items()) if g in undead and th.is_alive()]  # noqa: SLF001
+    if still and not zombies:
+        deadline = time.monotonic() + UNDEAD_CAP
+        for th in still:
+            th.join(max(0.0, deadline - time.monotonic()))
+        out["undead_hard"] = sorted(ren.get(g, -1) for th, g in list(rec._rec_threads.items())  # noqa: SLF001
+                                    if th in still and th.is_alive())
     execs = []
     for i, (lo, hi, key) in enumerate(windows):
         g = thread_of_test.get(key)
@@ -793,6 +979,20 @@ def _worker_history(envs: dict, base: str, case: dict) -> dict:
     out["execs"] = execs
     out["results"] = results
     return out
+
+
+COARSE = ("plain", "skipped", "raised", "done")
+
+
+def _fine_events(t, o, st, opened):
+    """A log entry at the finer grain of the model: guard / write of a callback."""
+    if st in ("plain",):
+        return [[t, ["plain", o]]]
+    if st in ("skipped", "raised", "open", "died", "done"):
+        return [[t, "cbBegin"]]
+    if st == "end":
+        return [[t, ["cbEnd", opened]]]
+    raise AssertionError(st)
 
 
 def worker_main() -> None:
@@ -845,11 +1045,13 @@ class C32(PropertyCheck):
             "cases (loops, parked threads, late finishers) on the real TestCaseExecutor with real "
             "timeouts and an observer; non-trivial = a thread that is not "
             "current makes a guarded call while another thread records afterwards (sched), or a history "
-            "with at least one abandoned execution followed by a terminating test case (hist)")
+            "with at least one abandoned execution followed by a terminating test case (hist); ~70 % of "
+            "the generated histories contain a test case that never terminates inside a tracer call")
     assumptions = [
-        "each tracer call is atomic (the schedule interleaves whole calls; the write of a callback goes "
-        "to the caller's thread-local trace, so a preemption between check() and the write cannot reach "
-        "another thread's trace)",
+        "each plain tracer call is atomic; a callback is two atomic steps (guard = flag test + check(), "
+        "write), in the coarse schedule it sits where its guard was passed (the write goes to the "
+        "caller's thread-local trace only: late_callback_write_is_own_thread_only; checked per history "
+        "by replaying both grains)",
         "Thread.join(timeout=x) returns after at most x plus scheduling delay (the wall-clock bound is "
         "measured, not proved); a hang is reported after bound + 60 s",
         "thread identifiers of live threads are unique (CPython guarantee)",
@@ -865,13 +1067,16 @@ class C32(PropertyCheck):
     def __init__(self, tier, seed):
         super().__init__(tier, seed)
         self._gen_i = 0
+        self._hung = False
         self._child = None
         self._bases: list = []
         self.extra_coverage.update({"hist_cases": 0, "hist_tests": 0, "hist_abandoned": 0,
                                     "hist_later_results_lost": 0, "hist_slow": 0,
                                     "hist_recorded_events": 0, "hist_late_finishers": 0,
                                     "hist_late_puts": 0, "hist_late_abandoned": 0,
-                                    "hist_shared_queue_would_differ": 0})
+                                    "hist_shared_queue_would_differ": 0,
+                                    "hist_stuck_inside_tracer_call": 0, "hist_fine_events": 0,
+                                    "hist_update_lock_would_block": 0})
 
     # -- generation ---------------------------------------------------------------------------
     def _rand_cb(self, rng):
@@ -959,14 +1164,19 @@ class C32(PropertyCheck):
         tests, parked, gates, loops = [], [], {}, 0
         k = 0
         want_late = rng.random() < 0.6      # histories with at least one late finisher
+        want_stuck = rng.random() < 0.7     # … with at least one test case stuck INSIDE a tracer call
         for i in range(n_tests):
             kind = rng.random()
             can_loop = loops < (3 if self.tier == "quick" else 4) and i < n_tests - 1
             force_late = want_late and can_loop and i == min(1, n_tests - 2)
-            if can_loop and (kind < 0.45 or force_late):
-                which = rng.choice(["spin", "spin_tick", "nap", "nap", "swallow", "late", "late", "late"])
+            force_stuck = want_stuck and can_loop and not force_late and i <= min(2, n_tests - 2)
+            if can_loop and (kind < 0.45 or force_late or force_stuck):
+                which = rng.choice(["spin", "spin_tick", "nap", "nap", "swallow", "late", "late", "late",
+                                    "stuck_in", "stuck_eq", "stuck_bool"])
                 if force_late:
                     which, want_late = "late", False
+                elif force_stuck:
+                    which, want_stuck = rng.choice(["stuck_in", "stuck_eq", "stuck_bool"]), False
                 a = rng.randint(-3, 6)
                 if which == "late":
                     # a LATE FINISHER: terminates, but its tail after the last thread check (observer
@@ -991,9 +1201,12 @@ class C32(PropertyCheck):
                     tests.append({"stmts": stmts, "loops": False, "late": f"{where}/{rel}"})
                     loops += 1
                     continue
-                if which in ("nap", "swallow"):
+                if which in ("nap", "swallow", "stuck_eq", "stuck_bool"):
+                    # parked in uninstrumented code (stuck_*: INSIDE the tracer's evaluation of a branch
+                    # condition) until a later test case pokes it or the history ends
                     k += 1
-                    parked.append(k)
+                    if which in ("nap", "swallow") or rng.random() < 0.5:
+                        parked.append(k)
                     stmts = [f"{which}({k}, {a})"]
                 else:
                     stmts = [f"{which}({a})"]
@@ -1071,8 +1284,15 @@ class C32(PropertyCheck):
             self.count(f"sched:{case['shape']}")
             self.count("sched:events", len(case["evs"]))
             return run_schedule(case)
+        if self._hung:
+            # the executor hangs on this tree (reported once, with its input): every further history
+            # with an abandoned execution would cost the full hang cap again
+            self.count("hist:skipped-after-hang")
+            case["recorded"] = {}
+            return {"skipped": True}
         ans = self._run_hist(case)
-        case["recorded"] = {k: ans.get(k) for k in ("n", "hist", "execs", "raised", "truncated", "pre")}
+        case["recorded"] = {k: ans.get(k) for k in ("n", "hist", "execs", "raised", "truncated", "pre",
+                                                    "fine", "fine_raised", "stuck")}
         self.count("hist")
         ec = self.extra_coverage
         ec["hist_cases"] += 1
@@ -1087,7 +1307,12 @@ class C32(PropertyCheck):
         for t in case["tests"]:
             for s in t["stmts"]:
                 self.count("hist:call:" + s.split("(")[0])
-        return {k: ans.get(k) for k in ("results", "solo", "hang", "undead", "notes")}
+        ec["hist_stuck_inside_tracer_call"] += len(ans.get("stuck") or [])
+        ec["hist_fine_events"] += len(ans.get("fine") or [])
+        if ans.get("hang"):
+            self._hung = True
+        return {k: ans.get(k) for k in ("results", "solo", "hang", "undead", "notes", "zombies",
+                                        "undead_hard", "stuck")}
 
     def _kill_child(self):
         import shutil
@@ -1103,7 +1328,7 @@ class C32(PropertyCheck):
     # -- model ----------------------------------------------------------------------------------
     def model_line(self, case):
         if case["kind"] == "sched":
-            return vcommon.jdump({"n": case["n"], "execs": [], "hist": [],
+            return vcommon.jdump({"n": case["n"], "execs": [], "hist": [], "fine": [],
                                   "evs": [{"tid": t, "op": op_of(o)} for t, o in case["evs"]]})
         rec = case.get("recorded") or {}
         if not rec.get("hist"):
@@ -1116,7 +1341,16 @@ class C32(PropertyCheck):
                 return {"put": {"k": e[1], "t": e[2], "exc": e[3]}}
             return {"collect": {"k": e[1], "alive": bool(e[2])}}
 
+        def fev(e):
+            t, o = e
+            if o == "cbBegin":
+                return {"tid": t, "op": "cbBegin"}
+            if o[0] == "plain":
+                return {"tid": t, "op": {"plain": {"op": op_of(o[1])}}}
+            return {"tid": t, "op": {"cbEnd": {"c": op_of(o[1])["cb"]["c"]}}}
+
         return vcommon.jdump({"n": rec["n"], "evs": [], "hist": [hev(e) for e in rec["hist"]],
+                              "fine": [fev(e) for e in rec["fine"]],
                               "execs": [{"k": e["k"], "tid": e["tid"]} for e in rec["execs"]
                                         if e["tid"] >= 0]})
 
@@ -1129,10 +1363,21 @@ class C32(PropertyCheck):
                     and [{"enabled": l["enabled"], "trace": norm_model_trace(l["trace"])}
                          for l in mo["locals"]] == io["locals"])
         rec = case["recorded"]
+        if io.get("skipped"):
+            return True
         if mo.get("sharedDiffers"):
             self.extra_coverage["hist_shared_queue_would_differ"] += 1
         if mo["raised"] != rec["raised"]:
             return False
+        # the same history at the finer grain (guard and write of a callback as two steps, threads stuck
+        # inside a tracer call): runs without anybody waiting, same raised flags, same final tracer state
+        # as the coarse history, and exactly the recorded threads are still inside a call
+        fi = mo.get("fine") or {}
+        if (fi.get("ran") is not True or fi.get("sameAsCoarse") is not True
+                or fi.get("raised") != rec["fine_raised"] or fi.get("inside") != rec["stuck"]):
+            return False
+        if fi.get("lockBlocks"):
+            self.extra_coverage["hist_update_lock_would_block"] += 1
         by_k = {e["k"]: e for e in mo["execs"]}
         for ex, res in zip(rec["execs"], io["results"]):
             if ex["tid"] < 0:           # the test thread never reached the tracer before the timeout
@@ -1185,14 +1430,35 @@ class C32(PropertyCheck):
                                       detail={"thread": t, "extra": sorted(extra)}))
             return fs
         # ---- histories ---------------------------------------------------------------------------
+        if io.get("skipped"):
+            return fs
         if io.get("hang"):
             h = io["hang"]
             fs.append(Failure({"kind": "hist", "class": "no-timeout-reported"},
                               f"TestCaseExecutor.execute did not return for test #{h['test']} "
                               f"({case['tests'][h['test']]['stmts']}) within the configured bound "
-                              f"+ {HANG_CAP:.0f} s", detail=h))
+                              f"+ {HANG_CAP:.0f} s (threads inside a tracer call at that moment: "
+                              f"{h.get('threads_inside_a_tracer_call')})", detail=h))
             return fs
         ec = self.extra_coverage
+        for z in (io.get("zombies") or [])[:1]:
+            t = case["tests"][z["test"]]
+            fs.append(Failure({"kind": "hist", "class": "abandoned-execution-still-recording"},
+                              f"test #{z['test']} {t['stmts']} was abandoned (execute() called "
+                              f"tracer.stop() and reported a timeout), but {z['accepted_after_stop']} "
+                              f"later tracer callback(s) of its thread (first: {z['first']}) still passed "
+                              f"the thread guard, "
+                              + (f"up to the time test #{z['during_later_test']} was executed"
+                                 if z["during_later_test"] != z["test"] else "after the timeout was decided")
+                              + f": the abandoned execution is not dead, it keeps executing the "
+                              f"module under test next to the test cases executed afterwards",
+                              detail=z))
+        if io.get("undead_hard"):
+            fs.append(Failure({"kind": "hist", "class": "abandoned-execution-still-running"},
+                              f"threads {io['undead_hard']} of abandoned executions are still running "
+                              f"{20 + UNDEAD_CAP:.0f} s after the end of the history (everything they "
+                              f"could wait for was released): they never reach a thread guard that stops "
+                              f"them", detail={"threads": io["undead_hard"]}))
         for i, (t, res) in enumerate(zip(case["tests"], io["results"])):
             bound = min(case["maxT"], case["perStmt"] * len(t["stmts"])) + case["maxT"]
             if res["elapsed"] > bound + 2.0:
@@ -1228,6 +1494,8 @@ class C32(PropertyCheck):
 
     def classify(self, case, io):
         if case["kind"] == "hist":
+            if io.get("skipped"):
+                return None
             seen_loop = False
             for t in case["tests"]:
                 if t["loops"] or t.get("late"):
